@@ -178,6 +178,23 @@ FRAGS = [
     Frag("sync_read_limit_hit", "compio-io/src/compat/sync_stream.rs", expr=r"^\s*if (current_len >= self\.max_buffer_size) \{",
          params=[("len0", "nat"), ("maxb", "nat")], num="nat", bind={"current_len": "len0", "self.max_buffer_size": "maxb"},
          doc="SyncReadBuf::fill_read_buf: the read limit is reported (OutOfMemory)"),
+    # ---- C07: the ring slot a returned buffer is written to -----------------------------------
+    Frag("pool_ring_idx", "compio-driver/src/sys/buffer_pool/iour.rs",
+         expr=r"^\s*let idx = (\(self\.tail\(\)\.load\(Ordering::Acquire\) \+ offset\) % self\.len\.get\(\));",
+         subst=[(r"self\.tail\(\)\.load\(Ordering::Acquire\)", "tail"), (r"self\.len\.get\(\)", "len0")],
+         params=[("tail", "N"), ("offset", "N"), ("len0", "N")], bind={"tail": "tail", "offset": "offset", "len0": "len0"},
+         doc="BufRing::add_buffer: index of the ring entry (u16 arithmetic; the sum is checked in a debug build)"),
+    # ---- C01 / C02 / C03: how io_uring completions are classified in poll_entries ----------------
+    Frag("iour_notify_rearm", "compio-driver/src/sys/driver/iour/mod.rs", fn="poll_entries", impl=r"impl Driver",
+         subst=[(r"(?s)\A.*?Self::NOTIFY => \{\s*let flags = entry\.flags\(\);\s*if (.*?) \{.*\Z", r"\1"),
+                (r"more\(flags\)", "more")],
+         params=[("more", "bool")], bind={"more": "more"},
+         doc="poll_entries, NOTIFY completion: NEED_PUSH_NOTIFIER is set (the notifier is armed again) iff this holds"),
+    Frag("iour_cqe_more", "compio-driver/src/sys/driver/iour/mod.rs", fn="poll_entries", impl=r"impl Driver",
+         subst=[(r"(?s)\A.*?key => \{\s*let flags = entry\.flags\(\);.*?\n\s*if (?!let )(.*?) \{.*\Z", r"\1"),
+                (r"more\(flags\)", "more")],
+         params=[("more", "bool")], bind={"more": "more"},
+         doc="poll_entries, operation completion: non-final (push_multishot, keep in_flight) iff this holds, else final"),
 ]
 
 # extra fragments are appended by the property builders below this line
